@@ -686,6 +686,21 @@ fn parse_ixdtf(source: &str, variant: ParseVariant) -> TemporalResult<IxdtfParse
     }
     .map_err(|e| TemporalError::range().with_message(format!("{e}")))?;
 
+    // At most nine fractional digits: the parser keeps longer fractions, which cannot be
+    // represented and must not be dropped silently.
+    let time_fraction = record.time.and_then(|t| t.fraction);
+    let offset_fraction = match record.offset {
+        Some(UtcOffsetRecordOrZ::Offset(offset)) => offset.fraction,
+        _ => None,
+    };
+    if [time_fraction, offset_fraction]
+        .iter()
+        .flatten()
+        .any(|fraction| fraction.to_nanoseconds().is_none())
+    {
+        return Err(TemporalError::range().with_message("fractional seconds exceeds nine digits."));
+    }
+
     if critical_duplicate_calendar {
         // TODO: Add tests for the below.
         // Parser handles non-matching calendar, so the value thrown here should only be duplicates.
